@@ -292,6 +292,15 @@ def check_c02(world):
                 if em is not None and em[3] != wire_data:
                     out.append(V('C02', 'data_altered_on_send', f'emit tok={fd["tok"]} data differs on the wire',
                                  step, now, shape=sc['shape']))
+                if em is not None and em[4] is not None and xtra and 'img' in xtra:
+                    ekind, ebytes, efmt, eshape = em[4]
+                    enc = xtra['img'][3]
+                    if ekind == enc and bytes(parts[0]) != ebytes:
+                        # same encoding on the wire as emitted (raw pixels in logical row-major order, or the jpg the frame
+                        # already carried): must be byte-identical
+                        out.append(V('C02', 'image_altered_on_send',
+                                     f'{nid}#{inc} call {k}: {enc} image of {ptopic!r} (id {mid}) on the wire differs from the '
+                                     f'image the publisher emitted', step, now, shape=sc['shape']))
         for topic, fd in unattributed:
             if fd['tok'] is None and topic in SYS_TOPICS:
                 # system hidden topics may only show up through '*' or an explicit subscription
